@@ -2,6 +2,7 @@ package rules
 
 import (
 	"go/token"
+	"go/types"
 	"strings"
 
 	"golang.org/x/tools/go/ssa"
@@ -13,7 +14,7 @@ import (
 func init() {
 	register(&Prop{
 		ID:          "C17",
-		Explanation: "PARTIAL claim — decides four structural conditions of faithful proxying, not routing or byte fidelity as behaviour: (1) stores into the request line, host and body of an *http.Request (Method, URL, RequestURI, Host, Body, and fields of the URL reached from a request) occur, in production code, only in pkg/upstream (rewrite, director, unix round-tripper) or on values that are clones/new requests; (2) between the outer handler and the upstream no production code reachable from the pass path parses or consumes the body (ParseForm/FormValue/PostFormValue/ParseMultipartForm/MultipartReader/Body reads) outside the reviewed login endpoints; (3) the registration-order comparator puts a rewrite rule before a plain one only when the other has no rewrite target and otherwise orders by longer path, on every true-returning path; (4) the rewrite query merge only appends rewritten values to the client's query (url.Values.Add), never overwrites or replaces entries.",
+		Explanation: "PARTIAL claim — decides four structural conditions of faithful proxying, not routing or byte fidelity as behaviour: (1) stores into the request line, host and body of an *http.Request (Method, URL, RequestURI, Host, Body, and fields of the URL reached from a request) occur, in production code, only in pkg/upstream (rewrite, director, unix round-tripper) or on values that are clones/new requests; (2) between the outer handler and the upstream no production code reachable from the pass path parses or consumes the body (ParseForm/FormValue/PostFormValue/ParseMultipartForm/MultipartReader/Body reads) outside the reviewed login endpoints; (3) the registration-order comparator puts a rewrite rule before a plain one only when the other has no rewrite target and otherwise orders by longer path, on every true-returning path; (4) the rewrite query merge only appends rewritten values to the client's query (url.Values.Add), never overwrites or replaces entries. Added during the build: (5) every ResponseWriter wrapper of the module relays WriteHeader/Write to the wrapped writer exactly once with the caller's argument on every path; (6) the upstream-host director is installed only for an explicit pass-host-header=false and is the only writer of Request.Host in pkg/upstream (one reviewed exception: the unix round tripper fills an empty Host).",
 		NotDecided:  "longest-prefix routing of gorilla/mux over all paths, percent-encoding fidelity through RequestURI/URL.Path/RawPath, response relay by httputil.ReverseProxy, header pass-through: behaviour of third-party routers over all inputs.",
 		Run:         runC17,
 	})
@@ -25,6 +26,10 @@ func runC17(c *Ctx) {
 	r.Rule("R2-body-untouched", "no body-consuming call on the pass path outside the reviewed login endpoints", 4)
 	r.Rule("R3-order-comparator", "rewrite-first only against a non-rewrite; otherwise longer path first", 2)
 	r.Rule("R4-query-merge", "rewrite query merge appends, never overwrites", 1)
+	r.Rule("R5-response-wrapper", "every ResponseWriter wrapper of the module relays WriteHeader/Write to the wrapped writer exactly once, with the caller's argument, on every path", 2)
+	r.Rule("R6-pass-host-default", "the upstream-host director is installed only for an explicit pass-host-header=false; it is the only writer of Request.Host in pkg/upstream", 2)
+	runC17R5(c, "R5-response-wrapper")
+	runC17R6(c, "R6-pass-host-default")
 
 	// ---- R1 ---------------------------------------------------------------------------------
 	rule := "R1-request-writers"
@@ -319,4 +324,138 @@ func isCloneShallow(v ssa.Value) bool {
 		}
 	}
 	return false
+}
+
+// runC17R5: the ResponseWriter wrapper every request passes through relays status and body calls
+// to the wrapped writer unconditionally and unchanged.
+func runC17R5(c *Ctx, rule string) {
+	rwT := c.P.Named("net/http.ResponseWriter")
+	if rwT == nil {
+		c.R.Unknown(rule, "anchor:http.ResponseWriter", "-", "type not found")
+		return
+	}
+	iface := rwT.Underlying().(*types.Interface)
+	n := 0
+	for _, pk := range c.P.SortedMod() {
+		scope := c.P.Mod[pk].Types.Scope()
+		for _, name := range scope.Names() {
+			tn, ok := scope.Lookup(name).(*types.TypeName)
+			if !ok || tn.IsAlias() {
+				continue
+			}
+			named, ok := tn.Type().(*types.Named)
+			if !ok || types.IsInterface(named) || !types.Implements(types.NewPointer(named), iface) {
+				continue
+			}
+			st, ok := named.Underlying().(*types.Struct)
+			if !ok {
+				continue
+			}
+			// the wrapped writer: a field of type http.ResponseWriter
+			var inner *types.Var
+			for i := 0; i < st.NumFields(); i++ {
+				if types.Identical(st.Field(i).Type(), rwT) {
+					inner = st.Field(i)
+				}
+			}
+			if inner == nil {
+				continue
+			}
+			for _, mname := range []string{"WriteHeader", "Write"} {
+				fn := c.P.SSA.LookupMethod(types.NewPointer(named), tn.Pkg(), mname)
+				if fn == nil || fn.Synthetic != "" || len(fn.Blocks) == 0 {
+					continue // promoted from the embedded writer: relays by construction
+				}
+				n++
+				fn, mname := fn, mname
+				c.Walk(rule, fn, func(p *walk.Path) {
+					if _, ok := p.Exit.(*ssa.Return); !ok {
+						return
+					}
+					at := p.End()
+					key := "relays|" + fnKey(fn)
+					relayed := 0
+					var relay walk.Call
+					for _, cl := range p.Calls() {
+						if !cl.C.IsInvoke() || cl.C.Method.Name() != mname || cl.Idx >= at {
+							continue
+						}
+						recv := p.Resolve(p.StepOp(cl.C.Value, cl.Step))
+						if !fieldLoadOn(p, recv, inner, walk.DV{V: fn.Params[0]}) {
+							continue
+						}
+						if p.Resolve(p.Arg(cl, 0)).V == fn.Params[1] {
+							relayed++
+							relay = cl
+						}
+					}
+					switch {
+					case relayed != 1:
+						c.bad(rule, key, p.Exit, sprintf("%s returns on a path that relays the call to the wrapped writer %d times (with the caller's argument) instead of exactly once: the upstream's status or body does not reach the client unchanged", fn.Name(), relayed), p, at)
+					case mname == "Write":
+						r0, _ := p.ReturnDV(0)
+						if !ResultIs(p, r0, relay, 0) {
+							c.bad(rule, key, p.Exit, "Write does not report the wrapped writer's byte count", p, at)
+						} else {
+							c.ok(rule, key, p.Exit, "relays Write(b) once and returns its count")
+						}
+					default:
+						c.ok(rule, key, p.Exit, "relays WriteHeader(status) exactly once on every path")
+					}
+				})
+			}
+		}
+	}
+	if n == 0 {
+		c.R.Unknown(rule, "wrappers|none", "-", "no ResponseWriter wrapper with its own WriteHeader/Write found")
+	}
+}
+
+// runC17R6: the client's Host header is replaced by the upstream's only when the operator turned
+// pass-host-header off explicitly (unset means pass).
+func runC17R6(c *Ctx, rule string) {
+	nrp := c.Fn(rule, "pkg/upstream.newReverseProxy")
+	setHost := c.Fn(rule, "pkg/upstream.setProxyUpstreamHostHeader")
+	setHost1 := c.Fn(rule, "pkg/upstream.setProxyUpstreamHostHeader$1")
+	phF := c.Field(rule, "pkg/apis/options.Upstream.PassHostHeader")
+	hostF := c.P.Field("net/http.Request.Host")
+	if nrp == nil || setHost == nil || setHost1 == nil || phF == nil || hostF == nil {
+		return
+	}
+	c.Walk(rule, nrp, func(p *walk.Path) {
+		for _, cl := range p.Find(walk.Static(setHost), p.End()) {
+			key := "host-replaced-only-when-off|" + fnKey(nrp)
+			nonNil, off := false, false
+			for _, a := range p.Atoms(cl.Idx) {
+				v := p.Resolve(a.DV).V
+				if a.IsNil && !a.Val && walk.IsFieldLoad(v, phF) {
+					nonNil = true
+				}
+				if !a.IsNil && !a.Val {
+					if u, ok := v.(*ssa.UnOp); ok && u.Op == token.MUL && walk.IsFieldLoad(p.Resolve(p.Op(u.X, a.DV)).V, phF) {
+						off = true
+					}
+				}
+			}
+			if nonNil && off {
+				c.ok(rule, key, cl.In, "PassHostHeader != nil && !*PassHostHeader")
+			} else {
+				c.bad(rule, key, cl.In, "the client's Host header is replaced by the upstream's host on a path where pass-host-header is not known to be explicitly false (unset must mean: pass the client's Host)", p, cl.Idx)
+			}
+		}
+	})
+	// the only writer of Request.Host in pkg/upstream is that director
+	for _, ref := range c.fieldRefs(hostF) {
+		if ref.Store == nil || prog.Short(prog.FnPkg(ref.Fn).Path()) != "pkg/upstream" {
+			continue
+		}
+		key := "host-writer|" + fnKey(ref.Fn)
+		if ref.Fn == setHost1 {
+			c.ok(rule, key, ref.In, "the explicit pass-host-header=false director")
+		} else if k, ok := ConstString(ref.Store.Val); ok && k == "localhost" && ref.Fn.Name() == "RoundTrip" {
+			c.ok(rule, key, ref.In, "reviewed: the unix-socket round tripper fills an EMPTY Host with the constant \"localhost\" (the reverse proxy refuses requests without a host)")
+		} else {
+			c.R.Bad(rule, key, c.pos(ref.In), "Request.Host of a proxied request is rewritten outside the pass-host-header=false director", nil, nil)
+		}
+	}
 }
